@@ -195,3 +195,23 @@ func TestEnumOne(t *testing.T) {
 		}
 	}
 }
+
+// TestBudget prints, per property and tier, the number of work items and the sum of their wall caps.
+func TestBudget(t *testing.T) {
+	if *flagRole != "budget" {
+		t.Skip()
+	}
+	for _, id := range PropIDs() {
+		for _, tier := range []string{"quick", "thorough"} {
+			items := Props[id].Items(tier)
+			sum, nocap := 0, 0
+			for _, it := range items {
+				if it.Kind == "explore" && it.Opts.MaxSeconds == 0 {
+					nocap++
+				}
+				sum += it.Opts.MaxSeconds
+			}
+			fmt.Printf("%s %-8s items=%d capsum=%ds (%.0f min on 16 workers at worst) uncapped=%d\n", id, tier, len(items), sum, float64(sum)/16/60, nocap)
+		}
+	}
+}
